@@ -265,8 +265,16 @@ func (b *batch) genPriv(priv [32]byte, tweaks []byte) {
 	seenPub := map[[32]byte]int{}
 	nOK, nFail := 0, 0
 	var okTweak, failTweak byte
-	for _, tw := range tweaks {
+	for ti, tw := range tweaks {
 		var pub, repr [32]byte
+		// the output arrays are outputs: what they hold before the call (zeros,
+		// the previous key pair, anything) must not show in the result
+		if fill := []byte{0x00, 0xff, 0xaa, 0x01, 0x80, 0x40}[(ti+int(priv[1]))%6]; fill != 0 {
+			for i := range pub {
+				pub[i], repr[i] = fill, ^fill
+			}
+			r.Count("gen_calls_into_dirty_output_arrays", 1)
+		}
 		p := priv
 		ok := ntor.VerifScalarBaseMult(&pub, &repr, &p, tw)
 		if p != priv {
@@ -277,7 +285,7 @@ func (b *batch) genPriv(priv [32]byte, tweaks []byte) {
 		if tw == tweaks[0] {
 			// the same call again on the array the first call was given
 			var pub2, repr2 [32]byte
-			if ok2 := ntor.VerifScalarBaseMult(&pub2, &repr2, &p, tw); ok2 != ok || pub2 != pub || repr2 != repr {
+			if ok2 := ntor.VerifScalarBaseMult(&pub2, &repr2, &p, tw); ok2 != ok || (ok && (pub2 != pub || repr2 != repr)) {
 				c.Violationf("gen/not-repeatable-on-the-same-key-array", map[string]any{"priv": hx(priv[:]), "tweak": tw}, "priv %x tweak %#02x: a second call on the same key array gives ok=%v pub=%x repr=%x, the first gave ok=%v pub=%x repr=%x", priv, tw, ok2, pub2, repr2, ok, pub, repr)
 			}
 			r.Count("gen_repeated_on_same_array", 1)
